@@ -182,7 +182,9 @@ def eval_c09g(gb, case, out):
 
 
 def run_c09g(chk, replay=None, prop='C09'):
-    return gencheck.run_check(chk, replay, prop, cases_c09g, eval_c09g, model_ops=(),
+    from . import genalloc
+    tie = genalloc.Tie(chk)      # C09_gen_alloc: measured peak vs the model's ghost allocation count, per case
+    return gencheck.run_check(chk, replay, prop, cases_c09g, eval_c09g, model_ops=(), post=tie.post, extra_dist=tie.extra,
                               rule="every emitted struct / union x reference encodings truncated at sampled offsets, 1/2/4-byte fields "
                                    "overwritten with boundary values, random byte strings x {binary, binary_le, compact} x sync / async; "
                                    "observed: outcome and peak bytes requested from the counting allocator")
@@ -329,11 +331,12 @@ def _evolved_pairs(gb, rng, tier, cfgs=('plain',), protos=None, second=None):
             if _refless(W.resolve(dw['fields'][pos + 1]['ty'])):
                 # the known field that follows is present in every value (a struct-typed one could make the type uninhabited)
                 dw['fields'][pos + 1] = dict(dw['fields'][pos + 1], req='required')
-            v = None
-            for _ in range(6):
+            try:
                 v = gengen.gen_value(rng, W, ty, 3)
-                if any(fid == nf['id'] for fid, _x in (v if isinstance(v, list) else [])) or True:
-                    break
+            except RecursionError:
+                # the added REQUIRED field's type reaches the type itself through required fields: the evolved type has
+                # no finite value -- not a writer schema anybody can use; draw another one
+                continue
             for proto in protos:
                 k += 1
                 enc = genref.encode(W, ty, v, genrun.ref_proto(proto))
